@@ -7,3 +7,72 @@ Theorem refname_eq_git : forall s,
   Forall (fun b => 1 <= b <= 255) s -> check_ref_format s = git_check_refname_format s.
 Proof. exact refname_eq_git_lemma. Qed.
 Print Assumptions refname_eq_git.
+
+(* ---------- files backend: loose + packed refs behave like one flat map ---------- *)
+From DV Require Import Refs RefsP.
+
+(* packing refs (all or tags only) changes no visible ref, for every store state *)
+Theorem pack_refs_unobservable : forall d all q, dread (pack_refs d all) q = dread d q.
+Proof. exact pack_refs_unobservable_lemma. Qed.
+Print Assumptions pack_refs_unobservable.
+
+(* ... nor what any name resolves to through symbolic refs *)
+Theorem pack_refs_getitem : forall d all n, getitem (pack_refs d all) n = getitem d n.
+Proof. exact pack_refs_getitem_lemma. Qed.
+Print Assumptions pack_refs_getitem.
+
+(* set_if_equals: success means exactly the resolved name now holds the value
+   and nothing else changed (and the old value matched if one was named); a
+   False return means the named old value did not match and nothing changed;
+   an exception means a file/directory collision and nothing changed *)
+Theorem set_if_equals_contract : forall d n old new d' r,
+  set_if_equals d n old new = (d', r) ->
+  let real := realname d n in
+  match r with
+  | RTrue => (forall q, dread d' q = upd d real (Some (Sha new)) q) /\
+             (forall o, old = Some o -> orig_is d real o = true)
+  | RFalse => d' = d /\ exists o, old = Some o /\ orig_is d real o = false
+  | RExc => d' = d /\ (pre_collide real d = true \/ post_collide real d = true)
+  end.
+Proof. exact set_if_equals_spec. Qed.
+Print Assumptions set_if_equals_contract.
+
+Theorem set_unconditional_takes_effect : forall d n new,
+  pre_collide (realname d n) d = false -> post_collide (realname d n) d = false ->
+  snd (set_if_equals d n None new) = RTrue.
+Proof. exact set_unconditional_lemma. Qed.
+Print Assumptions set_unconditional_takes_effect.
+
+Theorem remove_if_equals_contract : forall d n old d' r,
+  remove_if_equals d n old = (d', r) ->
+  match r with
+  | RTrue => (forall q, dread d' q = upd d n None q) /\ (forall o, old = Some o -> orig_is d n o = true)
+  | RFalse => d' = d /\ exists o, old = Some o /\ orig_is d n o = false
+  | RExc => d' = d /\ (loose_ancestor n d = true \/ post_collide n d = true)
+  end.
+Proof. exact remove_if_equals_spec. Qed.
+Print Assumptions remove_if_equals_contract.
+
+(* a deleted ref does not come back from packed-refs *)
+Theorem removed_ref_is_gone : forall d n old d',
+  remove_if_equals d n old = (d', RTrue) -> dread d' n = None /\ getitem d' n = None.
+Proof. exact remove_gone_lemma. Qed.
+Print Assumptions removed_ref_is_gone.
+
+Theorem add_if_new_contract : forall d n v d' r,
+  add_if_new d n v = (d', r) ->
+  match r with
+  | RTrue => exists real, dread d real = None /\ forall q, dread d' q = upd d real (Some (Sha v)) q
+  | _ => d' = d
+  end.
+Proof. exact add_if_new_spec. Qed.
+Print Assumptions add_if_new_contract.
+
+Theorem set_symbolic_ref_contract : forall d n t d' r,
+  set_symbolic_ref d n t = (d', r) ->
+  match r with
+  | RTrue => forall q, dread d' q = upd d n (Some (Sym t)) q
+  | _ => d' = d
+  end.
+Proof. exact set_symbolic_ref_spec. Qed.
+Print Assumptions set_symbolic_ref_contract.
